@@ -780,6 +780,10 @@ inductive Form where
   | secMix (pat : List Mix)
   /-- the same for a list section: `[_, ...[b, c]](a)` denotes the list `[a, b, c]` -/
   | listMix (pat : List Mix)
+  /-- a call section whose CALLEE is a placeholder too: `_(_, b)(f, a)`, `_(a, _, c)(f, b)`,
+  `_(a, b)(f)`, `_(..._, c)(f, [a, b])` …: the first supplied argument is the callee, the others
+  fill the argument slots left to right -/
+  | calleeMix (pat : List Mix)
   /-- `x := a; x f= x; x` (also `x := [a]; x[0] f= x[0]; x[0]`) -/
   | opSelf
   /-- `x := a; x f= g(x); x` for the user-defined function `g = closure c` -/
@@ -829,6 +833,9 @@ def evalForm (W : World) (form : Form) (f : Func) (args : List Val) : Out Val :=
   | .listMix pat, _ =>
     (evalList W (mixBuild pat args).1).bind fun g =>
       evalCall W (some g) ((mixBuild pat args).2.map .val)
+  | .calleeMix pat, _ =>
+    (evalCall W none (mixBuild pat args).1).bind fun g =>
+      evalCall W (some g) (.val fv :: (mixBuild pat args).2.map .val)
   | .opSelf, [a] => opAssignThenRead W a fv .target
   | .opSelfApp c, [a] => opAssignThenRead W a fv (.app (.closure c))
   | .opSeq, [a, b] => opAssignThenRead W a fv (.seqTarget b)
